@@ -113,7 +113,9 @@ def r2_sole_appender(ck, F):
     pubs = [f["name"] for f in F.adts[A("bw_struct")]["variants"][0]["fields"] if f["pub"]]
     ck.ob(R, "fields-private", not pubs, f"BlockWriter has no public field (the compiler forbids other modules from bypassing insert){' — public: ' + str(pubs) if pubs else ''}", config=F.config, nontrivial=False)
     # methods of BlockWriter that take &mut self: only insert / finish / reset
-    muts = sorted(f["path"] for f in F.fns.values() if f.get("impl_adt") == A("bw_struct") and f["inputs"] and f["inputs"][0].startswith("&mut") and not f.get("derived"))
+    # (private helpers that only exist spliced into these methods are part of them, not a second entry path)
+    muts = sorted(f["path"] for f in F.fns.values() if f.get("impl_adt") == A("bw_struct") and f["inputs"] and f["inputs"][0].startswith("&mut") and not f.get("derived")
+                  and not (f["path"] in F.unknown_fns and not f.get("pub") and all(caller.startswith(A("bw_struct").rsplit("::", 1)[0] + "::BlockWriter::") for caller, callee in F.inlined if callee == f["path"])))
     want = sorted([A("bw_insert"), A("bw_finish"), A("bw_reset")])
     ck.ob(R, "mutating-api", muts == want, f"&mut self methods of BlockWriter: {[m.split('::')[-1] for m in muts]} (expected insert, finish, reset — a second entry path would bypass the order check)", config=F.config)
     # finish only appends the footer (offset table + count), never entry bytes
